@@ -198,6 +198,24 @@ def run(ctx):
 
     drive.for_each_case(ctx, 'main', ctx.budget, body)
 
+    # hand-written targets the grammar does not produce: container subclasses whose constructor validates, and dataclasses that
+    # merely INHERIT a validating hook (plain subclass, subclass with more fields, subclass of a bound generic)
+    from .. import special
+    for idx, (desc, ST, vals) in enumerate(special.container_subclass_cases() + special.inherited_hook_cases()):
+        if idx % ctx.nshards != ctx.shard or not ctx.want('special', idx):
+            continue
+        for v in vals:
+            for boundary, call in (('from_data', lambda: env.from_data(v, ST)), ('convert', lambda: env.convert(v, ST))):
+                out = observe(call)
+                ctx.count('boundary_calls')
+                ctx.count('special_target_calls')
+                ctx.count(f"outcome_{out.kind}")
+                ctx.case(('special', desc, genval.skeleton(v, 2), out.kind), nontrivial=True)
+                if out.kind == 'escape' and not (v is None and isinstance(out.exc, TypeError) and 'interchange' in str(out.exc)):
+                    ctx.violation('only-ConvertError-escapes', 'special', idx,
+                                  {'boundary': boundary, 'type': desc, 'value': short(v, 200), 'escaped': f"{type(out.exc).__name__}: {short(str(out.exc), 200)}",
+                                   'site': escape_site(out.exc)}, mech=f"special:{type(out.exc).__name__}@{escape_site(out.exc)}")
+
     # unsupported grammar: fails with TypeError/UnsupportedAnnotation, before any data is looked at
     def body_unsupported(i, rng, ty, T):
         desc, U = unsupported_types(rng) if rng.random() < 0.9 else dup_tag_type(rng)
